@@ -890,6 +890,10 @@ def _get_attribute(obj: Any, attr: str) -> Any:
     """
     if is_private_attribute(attr):
         raise AttributeError("attempt to access private attribute '%s'" % attr)
+    elif inspect.isdatadescriptor(getattr(obj.__class__, attr, None)):
+        # resolve the name on the class first: a property must never be evaluated by a method call request
+        # (properties are only reachable via _get_exposed_property_value / _set_exposed_property_value)
+        raise AttributeError("attempt to access unexposed attribute '%s'" % attr)
     else:
         obj = getattr(obj, attr)
     if getattr(obj, "_pyroExposed", False):
@@ -980,6 +984,8 @@ def _get_exposed_property_value(obj: Any, propname: str, only_exposed: bool = Tr
     If the requested property is not a @property or not exposed,
     an AttributeError is raised instead.
     """
+    if is_private_attribute(propname):
+        raise AttributeError("attempt to access private attribute '%s'" % propname)
     v = getattr(obj.__class__, propname)
     if inspect.isdatadescriptor(v):
         if v.fget and getattr(v.fget, "_pyroExposed", not only_exposed):
@@ -993,6 +999,8 @@ def _set_exposed_property_value(obj: Any, propname: str, value: Any, only_expose
     If the requested property is not a @property or not exposed,
     an AttributeError is raised instead.
     """
+    if is_private_attribute(propname):
+        raise AttributeError("attempt to access private attribute '%s'" % propname)
     v = getattr(obj.__class__, propname)
     if inspect.isdatadescriptor(v):
         pfunc = v.fget or v.fset or v.fdel
